@@ -113,6 +113,9 @@ impl<'tcx> Cx<'tcx> {
         match c {
             Const::Unevaluated(uv, _) => {
                 let _ = write!(s, ",\"path\":{}", esc(&tcx.def_path_str(uv.def)));
+                if !uv.args.is_empty() {
+                    let _ = write!(s, ",\"cargs\":{}", esc(&tcx.def_path_str_with_args(uv.def, uv.args)));
+                }
                 if uv.promoted.is_some() {
                     s.push_str(",\"promoted\":true");
                 }
@@ -154,6 +157,10 @@ impl<'tcx> Cx<'tcx> {
         let tcx = self.tcx;
         match v {
             ConstValue::Scalar(sc) => {
+                if let (rustc_middle::mir::interpret::Scalar::Ptr(ptr, _), Some(Some(n))) = (sc, self.is_bytes_ref(ty)) {
+                    let (prov, off) = ptr.into_raw_parts();
+                    return self.read_alloc(prov.alloc_id(), off.bytes() as usize, n).map(|b| Self::bytes_json(&b));
+                }
                 if let Ok(int) = sc.try_to_scalar_int() {
                     let size = int.size();
                     let bits = int.to_bits(size);
@@ -170,7 +177,53 @@ impl<'tcx> Cx<'tcx> {
                     Err(_) => format!("{{\"bytes\":{:?}}}", b),
                 })
             }
-            ConstValue::Indirect { .. } => None,
+            ConstValue::Indirect { alloc_id, offset } => {
+                // a wide pointer (&[u8] / &str) stored in memory: (ptr, len)
+                let inner = ty.builtin_deref(true)?;
+                let is_bytes = match inner.kind() {
+                    TyKind::Str => true,
+                    TyKind::Slice(e) => matches!(e.kind(), TyKind::Uint(ty::UintTy::U8)),
+                    _ => false,
+                };
+                if !is_bytes {
+                    return None;
+                }
+                let rustc_middle::mir::interpret::GlobalAlloc::Memory(alloc) = tcx.global_alloc(alloc_id) else { return None };
+                let alloc = alloc.inner();
+                let base = offset.bytes() as usize;
+                let raw = alloc.inspect_with_uninit_and_ptr_outside_interpreter(base..base + 16);
+                let poff = u64::from_le_bytes(raw[0..8].try_into().ok()?) as usize;
+                let len = u64::from_le_bytes(raw[8..16].try_into().ok()?) as usize;
+                let prov = alloc.provenance().ptrs().iter().find(|(o, _)| o.bytes() as usize == base).map(|(_, p)| *p)?;
+                self.read_alloc(prov.alloc_id(), poff, len).map(|b| Self::bytes_json(&b))
+            }
+        }
+    }
+
+    /// Some(Some(n)): `ty` is `&[u8; n]`; Some(None): a reference to bytes of unknown length; None: not bytes.
+    fn is_bytes_ref(&self, ty: Ty<'tcx>) -> Option<Option<usize>> {
+        let inner = ty.builtin_deref(true)?;
+        if let TyKind::Array(e, n) = inner.kind() {
+            if matches!(e.kind(), TyKind::Uint(ty::UintTy::U8)) {
+                return Some(n.try_to_target_usize(self.tcx).map(|x| x as usize));
+            }
+        }
+        None
+    }
+
+    fn read_alloc(&self, id: rustc_middle::mir::interpret::AllocId, off: usize, len: usize) -> Option<Vec<u8>> {
+        let rustc_middle::mir::interpret::GlobalAlloc::Memory(alloc) = self.tcx.global_alloc(id) else { return None };
+        let alloc = alloc.inner();
+        if off + len > alloc.len() || len > 4096 {
+            return None;
+        }
+        Some(alloc.inspect_with_uninit_and_ptr_outside_interpreter(off..off + len).to_vec())
+    }
+
+    fn bytes_json(b: &[u8]) -> String {
+        match std::str::from_utf8(b) {
+            Ok(st) => format!("{{\"str\":{},\"bytes_lit\":true}}", esc(st)),
+            Err(_) => format!("{{\"bytes\":{:?}}}", b),
         }
     }
 
